@@ -2,6 +2,7 @@ package c17
 
 import (
 	_ "embed"
+	"encoding/json"
 	"fmt"
 	"sort"
 	"strings"
@@ -388,16 +389,21 @@ func dumpApp(app appdef.IAppDef) Dump {
 	for _, t := range app.Types() {
 		it, _ := dumpType(t)
 		if t.QName().Pkg() == appdef.SysPackage {
-			sys = append(sys, fmt.Sprintf("%+v", it))
+			js, _ := json.Marshal(it) // not %+v: the item holds a pointer
+			sys = append(sys, string(js))
 			continue
 		}
 		d.Items = append(d.Items, it)
 	}
 	for _, r := range app.ACL() {
 		if r.Workspace().QName().Pkg() == appdef.SysPackage {
-			sys = append(sys, fmt.Sprintf("acl %+v", dumpRule(r)))
+			js, _ := json.Marshal(dumpRule(r))
+			sys = append(sys, "acl "+string(js))
 		}
 	}
+	// the application-level rule list is in creation order over all workspaces (Go map order over
+	// packages); the order that matters is the one inside each workspace item
+	sort.Strings(sys)
 	d.SysDigest = digest(strings.Join(sys, "\n"))
 	return d
 }
